@@ -1998,12 +1998,12 @@ impl DnsOutgoing {
 
             // create a new packet and reset counts.
             packet = DnsOutPacket::new();
-            packet.write_record(addi.as_ref(), 0);
+            let written = packet.write_record(addi.as_ref(), 0);
 
             question_count = 0;
             answer_count = 0;
             auth_count = 0;
-            addi_count = 1;
+            addi_count = u16::from(written);
         }
 
         packet.write_header(
